@@ -8,6 +8,7 @@ CONSTANTS Sizes = {0, 1, 2, 3, 4}
           MaxCacheables = {2, 8}
           MaxOps = 3
           Inductive = FALSE
+          Procs = {}
           HistSizes = {}
           HistLen = 0
 INVARIANTS CacheSound TransparentInv
